@@ -19,11 +19,26 @@ import (
 // incoming value decides it (a constant, a constant nil, a known non-nil
 // error, or a value tested on the way in).
 
-type binds map[*ssa.Phi]int
+// The same is done for a local variable that lives in a memory cell only because a function literal reads it
+// (`op` captured by a `readOp := func() error {...}`): when every store to the cell is in the function itself
+// and its address goes nowhere else, the walk remembers which store it passed last (0: the zero value the
+// cell was made with) and decides a later `if op == nil` from that.
+
+type binds map[ssa.Value]int
+
+type cellEvent struct {
+	cell *ssa.Alloc
+	idx  int // 0: the cell is made (zero value); k > 0: cellVals[cell][k] is stored
+	at   int // index of the instruction in its block
+}
 
 type phiInfo struct {
 	order   map[*ssa.Phi]int
 	byBlock map[*ssa.BasicBlock][]*ssa.Phi
+	// tracked cells
+	cellOrder map[*ssa.Alloc]int
+	cellVals  map[*ssa.Alloc][]ssa.Value
+	cellEv    map[*ssa.BasicBlock][]cellEvent
 }
 
 var phiInfos = map[*ssa.Function]*phiInfo{}
@@ -121,6 +136,83 @@ func phiInfoOf(fn *ssa.Function) *phiInfo {
 			root(ifi.Cond)
 		}
 	}
+	// cells that a branch tests against nil
+	pi.cellOrder = map[*ssa.Alloc]int{}
+	pi.cellVals = map[*ssa.Alloc][]ssa.Value{}
+	pi.cellEv = map[*ssa.BasicBlock][]cellEvent{}
+	cand := map[*ssa.Alloc]bool{}
+	for _, b := range fn.Blocks {
+		if len(b.Instrs) == 0 {
+			continue
+		}
+		ifi, ok := b.Instrs[len(b.Instrs)-1].(*ssa.If)
+		if !ok {
+			continue
+		}
+		c := ifi.Cond
+		if u, ok := c.(*ssa.UnOp); ok && u.Op == token.NOT {
+			c = u.X
+		}
+		bo, ok := c.(*ssa.BinOp)
+		if !ok || (bo.Op != token.EQL && bo.Op != token.NEQ) {
+			continue
+		}
+		var other ssa.Value
+		if IsNilConst(bo.Y) {
+			other = bo.X
+		} else if IsNilConst(bo.X) {
+			other = bo.Y
+		} else {
+			continue
+		}
+		if ld, ok := other.(*ssa.UnOp); ok && ld.Op == token.MUL {
+			if a, ok := ld.X.(*ssa.Alloc); ok && a.Heap && a.Parent() == fn {
+				cand[a] = true
+			}
+		}
+	}
+	for a := range cand {
+		ok := true
+		for _, u := range CellUses(a) {
+			switch x := u.(type) {
+			case *ssa.UnOp:
+				if x.Op != token.MUL {
+					ok = false
+				}
+			case *ssa.Store:
+				if CellRoot(x.Addr) != ssa.Value(a) || x.Parent() != fn {
+					ok = false // the address is stored somewhere, or a literal assigns the variable
+				}
+			case *ssa.DebugRef:
+			default:
+				ok = false
+			}
+		}
+		if !ok {
+			continue
+		}
+		pi.cellOrder[a] = len(pi.cellOrder)
+		pi.cellVals[a] = []ssa.Value{nil}
+	}
+	if len(pi.cellOrder) > 0 {
+		for _, b := range fn.Blocks {
+			for i, in := range b.Instrs {
+				switch x := in.(type) {
+				case *ssa.Alloc:
+					if _, tracked := pi.cellOrder[x]; tracked {
+						pi.cellEv[b] = append(pi.cellEv[b], cellEvent{x, 0, i})
+					}
+				case *ssa.Store:
+					if a, isA := x.Addr.(*ssa.Alloc); isA {
+						if _, tracked := pi.cellOrder[a]; tracked {
+							pi.cellVals[a] = append(pi.cellVals[a], x.Val)
+							pi.cellEv[b] = append(pi.cellEv[b], cellEvent{a, len(pi.cellVals[a]) - 1, i})
+						}
+					}
+				}
+			}
+		}
+	}
 	return pi
 }
 
@@ -143,7 +235,12 @@ func bindID(fn *ssa.Function, bd binds) int {
 	pi := phiInfoOf(fn)
 	parts := make([]string, 0, len(bd))
 	for p, i := range bd {
-		parts = append(parts, fmt.Sprintf("%04d:%d", pi.order[p], i))
+		switch k := p.(type) {
+		case *ssa.Phi:
+			parts = append(parts, fmt.Sprintf("%04d:%d", pi.order[k], i))
+		case *ssa.Alloc:
+			parts = append(parts, fmt.Sprintf("c%04d:%d", pi.cellOrder[k], i))
+		}
 	}
 	sort.Strings(parts)
 	k := fmt.Sprintf("%p|", fn) + strings.Join(parts, ",")
@@ -164,7 +261,8 @@ func stepBinds(bk int, from, to *ssa.BasicBlock) int {
 	fn := to.Parent()
 	pi := phiInfoOf(fn)
 	phis := pi.byBlock[to]
-	if len(phis) == 0 {
+	evs := pi.cellEv[from]
+	if len(phis) == 0 && len(evs) == 0 {
 		return bk
 	}
 	sk := stepKey{bk, from, to}
@@ -172,9 +270,13 @@ func stepBinds(bk int, from, to *ssa.BasicBlock) int {
 		return id
 	}
 	old := bindSets[bk]
-	nb := make(binds, len(old)+len(phis))
+	nb := make(binds, len(old)+len(phis)+len(evs))
 	for k, v := range old {
 		nb[k] = v
+	}
+	// the block that is left has run to its end: the last store to each tracked cell in it counts
+	for _, ev := range evs {
+		nb[ev.cell] = ev.idx
 	}
 	idx, n := -1, 0
 	for i, pr := range to.Preds {
@@ -253,6 +355,42 @@ func evalCondBinds(c ssa.Value, bd binds, depth int) (val, known bool) {
 func nilnessBinds(v ssa.Value, bd binds, depth int) (isNil, known bool) {
 	if depth > 6 {
 		return false, false
+	}
+	// a load of a tracked cell: the last store before it in its block, else the store the walk passed last
+	if ld, ok := v.(*ssa.UnOp); ok && ld.Op == token.MUL {
+		if a, ok := ld.X.(*ssa.Alloc); ok && a.Parent() != nil {
+			pi := phiInfoOf(a.Parent())
+			if vals, tracked := pi.cellVals[a]; tracked && ld.Block() != nil {
+				idx, have := -1, false
+				at := idxIn(ld)
+				for _, ev := range pi.cellEv[ld.Block()] {
+					if ev.cell == a && ev.at < at {
+						idx, have = ev.idx, true
+					}
+				}
+				if !have {
+					idx, have = bd[a]
+				}
+				if !have || idx < 0 || idx >= len(vals) {
+					return false, false
+				}
+				if idx == 0 {
+					return true, true // the zero value the cell was made with
+				}
+				sv := vals[idx]
+				if IsNilConst(sv) {
+					return true, true
+				}
+				switch sv.(type) {
+				case *ssa.Alloc, *ssa.MakeInterface, *ssa.MakeClosure, *ssa.MakeMap, *ssa.MakeChan, *ssa.MakeSlice, *ssa.FieldAddr, *ssa.IndexAddr:
+					return false, true
+				}
+				if possible, known := MayBeNil(sv); known && !possible {
+					return false, true
+				}
+				return false, false
+			}
+		}
 	}
 	v = StoredHere(v)
 	if IsNilConst(v) {
